@@ -23,7 +23,7 @@ EXTRA = ["[1", "{'a':1}", "1,", "{", "]", '{"a": 1', "[1, 2", "nul", "tru", "+1"
          "1.0", "-0", "1e5", "-1.5E-3", "01", "1.", ".5", "Infinity", "NaN", "-Infinity", "true", "false", "True", "False", "None", "null",
          '"quoted"', "'quoted'", "b'x'", "[]", "{}", "()", "[[]]", '{"a": {"b": [1, null]}}', "[1, 2, 3]", "(1,)", "{1, 2}", "1 + 1", "__import__('os')",
          "{[1]: 2}", "{{}}", "{[1, 2]}", "{{1: 2}: 3}", "{(1, [2]): 3}", "[1, 2", "(1, 2", "1 if 2 else 3", "[x for x in y]", "f'{a}'", "0o17", "1j", "b'\\xff'",
-         "\ufeffx", "\ufeff12", "\ufeff[1]", "x\ufeff", "2020-01-01T00:00:00+00:00", "2020-01-01 00:00:00", "00:00", "P1D", "PT", "-P1D", "12345678-1234-1234-1234-123456789012", "a/b", "a+", "\\d"]
+         "\u0661\u0662", "\uff11\uff12", " 12 ", "1_000", "12345678123456781234567812345678", "0123456789abcdef0123456789abcdef", "\ufeffx", "\ufeff12", "\ufeff[1]", "x\ufeff", "2020-01-01T00:00:00+00:00", "2020-01-01 00:00:00", "00:00", "P1D", "PT", "-P1D", "12345678-1234-1234-1234-123456789012", "a/b", "a+", "\\d"]
 
 
 def units(tier):
